@@ -86,6 +86,9 @@ func (d *rawDecoder) Scan(ctx context.Context) (DecodedAmmo, error) {
 		}
 
 		data, err = d.reader.ReadString('\n')
+		if err == io.EOF && len(strings.TrimSpace(data)) != 0 {
+			err = nil // last line of file without final newline
+		}
 		if err == io.EOF {
 			d.passNum++
 			if d.config.Passes != 0 && d.passNum >= d.config.Passes {
